@@ -988,7 +988,7 @@ def generate(ctx: Ctx) -> List[Case]:
     for rec in CORPUS:
         cases.append(run_recipe(ctx, rec, f"corpus{i}"))
         i += 1
-    n = 700 if ctx.thorough else 110
+    n = 3000 if ctx.thorough else 330
     for _ in range(n):
         defn = g_defn(rng)
         ops = g_ops(rng, defn, 2 if not ctx.thorough else 3, 4 if not ctx.thorough else 6)
